@@ -308,6 +308,8 @@ func (c *Compiler) call(e *ast.CallExpr) {
 	if inst, ok := c.info.Instances[identOf(fun)]; ok && inst.TypeArgs.Len() > 0 {
 		unsupported("instantiated call")
 	}
+	lhs := c.wantLHS
+	c.wantLHS = 0
 	c.expr(fun)
 	for _, a := range e.Args {
 		c.expr(a)
@@ -315,7 +317,11 @@ func (c *Compiler) call(e *ast.CallExpr) {
 			c.opts.InjectExpr(c, c.curUnit)
 		}
 	}
-	c.B.Call(len(e.Args), e.Ellipsis.IsValid())
+	if lhs >= 2 {
+		c.B.CallLHS(len(e.Args), lhs, e.Ellipsis.IsValid())
+	} else {
+		c.B.Call(len(e.Args), e.Ellipsis.IsValid())
+	}
 }
 
 func identOf(e ast.Expr) *ast.Ident {
